@@ -333,6 +333,34 @@ class Crate:
             raise ValueError(where)
         self.log.append(('ghost', rel, '%s @ %s' % (name, stmt_text[:40])))
 
+    def bind_tail(self, rel, ctx, name, ghost, nth=0):
+        """R9: `{ ...; EXPR }` -> `{ ...; let vx_r = EXPR; <ghost> vx_r }` (tail expression let-bound so that ghost code can
+        follow the last call); no-op change of evaluation order."""
+        jb, be = self.body(rel, ctx, name, nth)
+        s = self.rd(rel)
+        j = jb + 1
+        d = 0
+        last = jb + 1
+        while j < be - 1:
+            k = skip_trivia(s, j)
+            if k != j:
+                j = k
+                continue
+            c = s[j]
+            if c in '([{':
+                d += 1
+            elif c in ')]}':
+                d -= 1
+            elif c == ';' and d == 0:
+                last = j + 1
+            j += 1
+        tail = s[last:be - 1]
+        if not tail.strip():
+            raise AnchorLost('%s: %s has no tail expression (R9)' % (rel, name))
+        ind = '        '
+        self.wr(rel, s[:last] + '\n' + ind + 'let vx_r = ' + tail.strip() + ';\n' + ghost.rstrip() + '\n' + ind + 'vx_r\n    ' + s[be - 1:])
+        self.log.append(('rewrite', rel, 'R9 x1 (tail expression of %s let-bound for a trailing proof block)' % name))
+
     def closure_spec(self, rel, ctx, name, k_closure, spec, nth=0):
         """turn the k-th closure `|args| body` of fn into `|args| -> (r: T) ensures ... { body }` -- spec is the
         full replacement header generator: callable(args_text, body_text) -> new text"""
